@@ -69,4 +69,14 @@ def base_family(observer=None):
         [dict(name="A0", menu=menu3, program=[1, 3, 5, 7, 8], markets=["M0", "M1", "IDX"]),
          dict(name="A1", menu=menu3, program=[2, 4, 6, 4, 2], markets=["M0", "M1", "IDX"]),
          dict(name="H0", cls="ScriptedHFAgent", menu=menu3h, program=[1, 2, 3], markets=["M0", "M1", "IDX"])], markets=mk3)
+    # a halt that really happens in the middle of a step: the first batch's order trades through the halt line, the
+    # second batch then submits crossing orders to the halted market and to another market
+    menu_h2 = [[], [bl(0, 101)], [sl(0, 102)], [sl(0, 101)], [bl(0, 102)], [bl(1, 101)], [sl(1, 101)], [bl(0, 102), sl(1, 101)], [CL]]
+    add("N_halt_in_mid_step", [S(0, 1, True, False, maxNormalOrders=2), S(1, 4, True, True, maxNormalOrders=2, maxHighFrequencyOrders=1, events=["halt"])],
+        [dict(name="A0", menu=menu_h2, program=[1, 3, 5, 0, 1], markets=["M0", "M1"]),
+         dict(name="A1", menu=menu_h2, program=[2, 7, 6, 0, 2], markets=["M0", "M1"]),
+         dict(name="H0", cls="ScriptedHFAgent", menu=menu_h2, program=[0, 4, 0], markets=["M0", "M1"])],
+        markets=[dict(name="M0"), dict(name="M1")],
+        events={"halt": {"class": "TradingHaltRule", "targetMarkets": ["M0"], "triggerChangeRate": 0.01, "haltingTimeLength": 1}},
+        meta=dict(halt_targets=["M0"]))
     return sc
